@@ -4,7 +4,7 @@
    component relative to a descriptor of the walk; descriptors are balanced.  The
    post-condition on the tree and the convergence of concurrent callers are decided
    by the snapshot and interleaving runs (DESIGN.md: partial). *)
-From PV Require Import Discipline ProgTac PathProofs DisciplineProofs OpathDisc RootDisc OpsProofs FdBalance FdBalProofs RootBal.
+From PV Require Import Discipline ProgTac PathProofs DisciplineProofs OpathDisc RootDisc OpsProofs FdBalance FdBalProofs RootBal BeneathProofs.
 Open Scope N_scope.
 
 Theorem C13_dot_refused :
@@ -32,6 +32,33 @@ Theorem C13_balanced :
   forall fz fuel dirfd name o, bal (Rsame o) o (remove_all fz fuel dirfd name).
 Proof. intros. apply remove_all_bal. Qed.
 
+(* stays beneath the named entry, for all answers -- whatever the directory listings say
+   and whoever rearranges the tree meanwhile: every unlinkat is on (dirfd, name) itself or
+   on a descriptor obtained by descending from it (opening the entry, or a '/'-free name
+   other than "." / ".." below such a descriptor, always with O_NOFOLLOW; or re-opening "."
+   of one), and names a '/'-free entry other than "." and ".."; no other call that changes
+   the tree is issued ([call_ok], [sub] in proofs/BeneathProofs.v: the set D of descending
+   descriptors starts empty and grows by exactly the results of those opens) *)
+Theorem C13_stays_beneath :
+  forall fz fuel dirfd name, sub dirfd name (grows []) [] (remove_all fz fuel dirfd name).
+Proof. intros. apply remove_all_sub. left. split; reflexivity. Qed.
+
+(* what the judgement accepts and rejects *)
+Example C13_beneath_examples :
+  call_ok 5 (b "v") [] (Unlinkat 5 (b "v") 0) /\ ~ call_ok 5 (b "v") [] (Unlinkat 5 (b "w") 0) /\
+  ~ call_ok 5 (b "v") [7%Z] (Unlinkat 7 (b "..") 0) /\ ~ call_ok 5 (b "v") [7%Z] (Unlinkat 8 (b "x") 0) /\
+  call_ok 5 (b "v") [7%Z] (Unlinkat 7 (b "x") 512) /\
+  ~ call_ok 5 (b "v") [7%Z] (Openat 7 (b "x") O_DIRECTORY 0) /\
+  ~ call_ok 5 (b "v") [7%Z] (Renameat 7 (b "x") 7 (b "y")).
+Proof.
+  unfold call_ok, plain. repeat split; try (left; split; reflexivity); try (right; split; [left; reflexivity|split; reflexivity]).
+  - intros [[_ H]|[[] _]]. discriminate.
+  - intros [[H _]|[_ [_ H]]]; discriminate.
+  - intros [[H _]|[[H|[]] _]]; discriminate.
+  - intros [[H _]|[_ [[_ H]|H]]]; discriminate.
+  - intros [].
+Qed.
+
 Example C13_dots : dot_or_dotdot (b ".") = true /\ dot_or_dotdot (b "..") = true /\ dot_or_dotdot (b "...") = false.
 Proof. repeat split. Qed.
 
@@ -40,3 +67,4 @@ Print Assumptions C13_slash_refused.
 Print Assumptions C13_links_not_followed.
 Print Assumptions C13_root_op_disciplined.
 Print Assumptions C13_balanced.
+Print Assumptions C13_stays_beneath.
